@@ -184,6 +184,32 @@ def run(prog, tier):
                              f"`{U(made[0])[:80] if made else ''}` builds a generator inside sample(): with a fixed seed every call returns the "
                              f"same vector (the draws are not samples of the prior), with none the module generator's seeding is bypassed",
                              REL, made[0].lineno if made else sfn.lineno, tier="E"))
+        # a law written as location + scale x standard draw: a + b U(0,1) is uniform(a, a + b); m + s N(0,1) is normal(m, s)
+        if call is not None and not (isinstance(call, ast.Call) and isinstance(call.func, ast.Attribute) and call.func.attr in LAWS):
+            rt_ = Resolver(sfn, prog, ci.module, ci).return_terms()
+            t_ = rt_[0] if len(rt_) == 1 else call
+            for pt_, mk_ in (("_a + _b * _g.random(*_)", lambda b: f"{b['_g']}.uniform(low={b['_a']}, high={b['_a']} + {b['_b']})"),
+                             ("_a + _b * _g.random(**_)", lambda b: f"{b['_g']}.uniform(low={b['_a']}, high={b['_a']} + {b['_b']})"),
+                             ("_a + _b * _g.normal(**_)", lambda b: f"{b['_g']}.normal(loc={b['_a']}, scale={b['_b']})"),
+                             ("_a + _b * _g.standard_normal(*_)", lambda b: f"{b['_g']}.normal(loc={b['_a']}, scale={b['_b']})"),
+                             ("_b * _g.exponential(**_)", lambda b: f"{b['_g']}.exponential(scale={b['_b']})"),
+                             ("_b * _g.standard_exponential(*_)", lambda b: f"{b['_g']}.exponential(scale={b['_b']})")):
+                b_ = pmatch(t_, pt_)
+                if b_ is not None and "_a" in b_ and "uniform" in mk_(b_):
+                    hb_ = pmatch(ast.parse(b_["_b"], mode="eval").body, "_h - _a", {"_a": b_["_a"]})
+                    if hb_ is not None:
+                        mk_ = (lambda h_: (lambda b: f"{b['_g']}.uniform(low={b['_a']}, high={h_})"))(hb_["_h"])     # a + (h - a) U = uniform(a, h)
+                if b_ is not None:
+                    # the standard draw itself carries no location / scale of its own
+                    inner = [x for x in ast.walk(t_) if isinstance(x, ast.Call) and isinstance(x.func, ast.Attribute)
+                             and x.func.attr in ("random", "normal", "standard_normal", "exponential", "standard_exponential")]
+                    if len(inner) == 1 and not [k_ for k_ in inner[0].keywords if k_.arg not in ("size",)] and (
+                            inner[0].func.attr in ("random", "standard_normal", "standard_exponential") or not inner[0].args):
+                        call = ast.parse(mk_(b_), mode="eval").body
+                        ast.copy_location(call, ret.value)
+                        for x in ast.walk(call):
+                            ast.copy_location(x, ret.value)
+                        break
         ok_shape = (isinstance(call, ast.Call) and isinstance(call.func, ast.Attribute)
                     and call.func.attr in LAWS)
         if not ok_shape:
@@ -664,6 +690,21 @@ def _guess_order(c, fn):
                            f"sorted((self.prior.sample() for _ in range({n_s})), key=self.cost)[:{n_g}]"):
                     if n_g != n_s and pmatch(rets[0], pt) is not None:
                         ok = True
+        # decorate - sort - undecorate: the draws held in a local D, ranked through (cost, position) pairs (ties keep the earlier draw,
+        # as the stable sort by key does)
+        if not ok:
+            for st_ in ast.walk(fn):
+                if isinstance(st_, ast.Assign) and len(st_.targets) == 1 and isinstance(st_.targets[0], ast.Name):
+                    for n_s in n_par:
+                        if pmatch(st_.value, f"[self.prior.sample() for _ in range({n_s})]") is not None:
+                            D_ = st_.targets[0].id
+                            rk = Resolver(fn).term(rz.returns()[0].value, rz.returns()[0], keep=(D_,))
+                            for n_g in n_par:
+                                for pt in (f"[{D_}[_i] for _c, _i in sorted(zip([self.cost(_s) for _s in {D_}], range({n_s})))[:{n_g}]]",
+                                           f"[{D_}[_i] for _c, _i in sorted(zip([self.cost(_s) for _s in {D_}], range(len({D_}))))[:{n_g}]]",
+                                           f"[{D_}[_i] for _i in argsort([self.cost(_s) for _s in {D_}], kind='stable')[:{n_g}]]"):
+                                    if n_g != n_s and pmatch(rk, pt) is not None:
+                                        ok = True
     return struct_ob("guess-order", qual(c, fn), ok,
                      "initial guesses must be the ascending-cost prefix of the prior draws: " + why,
                      POST, fn.lineno)
